@@ -299,10 +299,13 @@ REGISTRY = {
     "C01": Prop(
         targets=["PsProps.C01"],
         theorems=[("PsProps.C01", "Ps.Props.C01_forward"), ("PsProps.C01", "Ps.Props.C01_sequence_exact"),
-                  ("PsProps.C01", "Ps.Props.C01_blocks_nonempty")],
-        tie=combine(("iter", iter_tie), ("segment", segment_tie)),
-        witness=combine_witness(iter_witness, segment_witness), assumptions=ITER_ASSUME,
-        undischarged=["IGen ~ PrimeGenerator (sieve chain, DESIGN section 9 Tier B)"],
+                  ("PsProps.C01", "Ps.Props.C01_blocks_nonempty"), ("PsProps.C01", "Ps.Props.C01_crossoff_tables"),
+                  ("PsProps.C01", "Ps.Props.C01_crossoff_step"), ("PsProps.C01", "Ps.Props.C01_crossoff_walk_exact"),
+                  ("PsProps.C01", "Ps.Props.C01_first_multiple")],
+        tie=combine(("iter", iter_tie), ("segment", segment_tie), ("wheel", streams.WHEEL.tie), ("cross", streams.CROSS.tie)),
+        witness=combine_witness(iter_witness, streams.WHEEL.witness, streams.CROSS.witness, segment_witness), assumptions=ITER_ASSUME,
+        undischarged=["IGen ~ PrimeGenerator: the wheel layer of the sieve chain is proved (tables, step, walk, first multiple); "
+                      "the segment loop, bucket scheduling, pre-sieve and sieving-prime generation are tied by the segment stream only"],
         explanation="forward iteration = primeSeq for every start, hint, block policy and float oracle; "
                     "termination of generate_next_primes is the well-founded recursion of genNextFresh"),
     "C02": Prop(
@@ -325,8 +328,8 @@ REGISTRY = {
         theorems=[("PsProps.C04", "Ps.Props.C04_count_single"), ("PsProps.C04", "Ps.Props.C04_count_parallel"),
                   ("PsProps.C04", "Ps.Props.C04_empty"), ("PsProps.C04", "Ps.Props.C04_additive"),
                   ("PsProps.C04", "Ps.Props.C04_agrees_with_enumeration")],
-        tie=combine(("count", count_tie), ("segment", segment_tie)),
-        witness=combine_witness(count_witness, segment_witness), assumptions=COUNT_ASSUME,
+        tie=combine(("count", count_tie), ("segment", segment_tie), ("cross", streams.CROSS.tie)),
+        witness=combine_witness(count_witness, streams.CROSS.witness, segment_witness), assumptions=COUNT_ASSUME,
         undischarged=["ideal sieve ~ Erat cross-off (sieve chain, DESIGN section 9 Tier B)"],
         explanation="counter 0 of PrimeSieve::sieve / ParallelSieve::sieve over the ideal sieve = number of primes in "
                     "[start, stop], for every start, stop, thread count and piece length"),
@@ -433,8 +436,8 @@ REGISTRY = {
         theorems=[("PsProps.C10", "Ps.Props.C10_maxPrime64_prime"), ("PsProps.C10", "Ps.Props.C10_no_prime_above"),
                   ("PsProps.C10", "Ps.Props.C10_forward_values_le_max"), ("PsProps.C10", "Ps.Props.C10_iterator_top"),
                   ("PsProps.C10", "Ps.Props.C10_checkedAdd"), ("PsProps.C10", "Ps.Props.C10_checkedSub")],
-        tie=combine(("iter", iter_tie), ("count", count_tie), ("segment", segment_tie)),
-        witness=combine_witness(iter_witness, count_witness, segment_witness),
+        tie=combine(("iter", iter_tie), ("count", count_tie), ("segment", segment_tie), ("wheel", streams.WHEEL.tie)),
+        witness=combine_witness(iter_witness, count_witness, streams.WHEEL.witness, segment_witness),
         assumptions=ITER_ASSUME + COUNT_ASSUME,
         undischarged=["no-wrap lemmas for Wheel::addSievingPrime / cross-off index arithmetic (sieve chain, Tier B)"],
         explanation="18446744073709551557 is prime and nothing above it below 2^64 is (Lucas certificate + 58 explicit "
